@@ -290,7 +290,8 @@ class ValueGen:
                 n = hi
             if small and r.random() < 0.02 and hi <= 300:
                 n = hi
-            return max(lo, min(hi, n))
+            n = max(lo, min(hi, n))
+            return max(n, 1) if nonempty and hi >= 1 else n
         n = r.choice([0, 1, 2, r.randrange(4 if small else 9)])
         return max(n, 1) if nonempty else n
 
@@ -312,7 +313,7 @@ class ValueGen:
             return self.string(max(1, r.randrange(9)) if nonempty else r.choice([0, 1, 3, r.randrange(9)]))
         if isinstance(it.length, int) and it.padded:
             return self.string(r.choice([0, it.length, r.randrange(it.length + 1)]))
-        return self.string(self.count(it, small=False))
+        return self.string(self.count(it, nonempty=nonempty, small=False))
 
     # ---- a body -> kwargs (tree of dict / Obj / EnumRef / leaves) ----
     def body(self, b: Body, path: str) -> dict:
